@@ -12,7 +12,7 @@ pub fn def() -> PropDef {
     PropDef {
         id: "C04",
         level: "exploration",
-        rule: "cases = (type T from a family of 58 concrete Rust types (plus 9 borrowing targets such as &str, Vec<&str>, #[serde(borrow)] structs) covering every Serde data-model category and the shape-ambiguous nestings -- Option<Option<T>>, Option<()>, Option<Vec<T>>, Vec<Option<T>>, newtype variant around seq/option/unit/tuple/box-of-self vs tuple variant, empty tuple/struct variants, 1-tuples, [T;0], maps with integer/char/string keys, enums inside maps inside structs --, value of T from a recursive generator with boundary integers, arbitrary Unicode strings, empty and long collections, route in {to_value/from_value, to_string/from_str, to_vec/from_slice, to_writer/from_reader}). non-trivial = one value taken through one route and compared on the Rust side; distinct = hash of (type, serialized text, route)",
+        rule: "cases = (type T from a family of 58 concrete Rust types (plus 9 borrowing targets such as &str, Vec<&str>, #[serde(borrow)] structs) covering every Serde data-model category and the shape-ambiguous nestings -- Option<Option<T>>, Option<()>, Option<Vec<T>>, Vec<Option<T>>, newtype variant around seq/option/unit/tuple/box-of-self vs tuple variant, empty tuple/struct variants, 1-tuples, [T;0], maps with integer/char/string keys, enums inside maps inside structs --, value of T from a recursive generator with boundary integers, arbitrary Unicode strings, empty and long collections, route in {to_value/from_value, to_string/from_str, to_vec/from_slice, to_writer/from_reader, and the three _custom pairs with default options}); all text routes must also produce the same text. non-trivial = one value taken through one route and compared on the Rust side; distinct = hash of (type, serialized text, route)",
         assumptions: &["equality on the Rust side is ==, except floats: bit-exact through values (NaN included), C05 rule through text in the fast-float build", "serde_derive's generated impls are correct"],
         nofast_too: false,
         min_quick: 100_000,
@@ -72,10 +72,27 @@ pub fn run<T: Fam>(rep: &mut Report, rng: &mut Rng) {
             serde_lexpr::to_writer(&mut w, &x).map_err(|e| format!("to_writer failed: {}", e))?;
             serde_lexpr::from_reader::<T>(&w[..]).map(|y| (String::from_utf8_lossy(&w).to_string(), y)).map_err(|e| format!("from_reader failed on {:?}: {}", crate::report::show(&w), e))
         })),
+        ("to_vec_custom/from_slice_custom(default)", panics::guarded(|| serde_lexpr::to_vec_custom(&x, lexpr::print::Options::default()).map_err(|e| e.to_string()).and_then(|b| serde_lexpr::from_slice_custom::<T>(&b, lexpr::parse::Options::default()).map(|y| (String::from_utf8_lossy(&b).to_string(), y)).map_err(|e| format!("from_slice_custom failed on {:?}: {}", crate::report::show(&b), e))))),
+        ("to_writer_custom/from_reader_custom(default)", panics::guarded(|| {
+            let mut w = Vec::new();
+            serde_lexpr::to_writer_custom(&mut w, &x, lexpr::print::Options::default()).map_err(|e| format!("to_writer_custom failed: {}", e))?;
+            serde_lexpr::from_reader_custom::<T>(&w[..], lexpr::parse::Options::default()).map(|y| (String::from_utf8_lossy(&w).to_string(), y)).map_err(|e| format!("from_reader_custom failed on {:?}: {}", crate::report::show(&w), e))
+        })),
         ("to_string_custom/from_str_custom(default)", panics::guarded(|| serde_lexpr::to_string_custom(&x, lexpr::print::Options::default()).map_err(|e| e.to_string()).and_then(|s| serde_lexpr::from_str_custom::<T>(&s, lexpr::parse::Options::default()).map(|y| (s.clone(), y)).map_err(|e| format!("from_str_custom failed on {:?}: {}", show_str(&s), e))))),
     ];
+    let mut first_text: Option<String> = None;
     for (route, r) in routes {
         rep.eval();
+        if let Ok(Ok((s, _))) = &r {
+            match &first_text {
+                None => first_text = Some(s.clone()),
+                Some(t) if t != s => {
+                    rep.violation("text-route", format!("C04:text-routes-print-differently:{}", name), format!("{}: {} printed {:?} by to_string but {:?} via {}", name, short(&x), show_str(t), show_str(s), route), json!({"type": name, "route": route}));
+                    return;
+                }
+                _ => {}
+            }
+        }
         match r {
             Err(p) => {
                 if p.in_library() {
